@@ -286,6 +286,17 @@ func (r *runner) guarded(useCtx bool, f func(ctx *stepctx.Ctx) (interface{}, err
 
 var optsNoDebug = &vm.Options{Debug: false}
 
+// orderDependentBlock: a loop whose body can block on a channel (or loop again)
+// may behave differently from run to run when it ranges over a map (Go
+// randomises the order): the fuelled run ending by itself then says nothing
+// about a run without fuel, so vm.Execute (uncancellable) is not called.
+func orderDependentBlock(src string) bool {
+	n := len(reForWord.FindAllStringIndex(src, -1))
+	return n >= 2 || (n == 1 && strings.Contains(src, "<-"))
+}
+
+var reForWord = regexp.MustCompile(`\bfor\b`)
+
 const machineryMark = "C01-MACHINERY: "
 
 func newEnvSafe() (e *env.Env, err error) {
@@ -377,7 +388,7 @@ func (r *runner) runCase(src string) (cr caseResult) {
 	quiet := o.rec == nil && len(o.goPanics) == 0 && !o.blocked && !o.interrupted && !o.memGuard
 	// (C) Execute (context.Background: neither fuel nor cancellation), only for
 	// programs that just terminated on their own and start no goroutine
-	if quiet && !reGoWord.MatchString(src) {
+	if quiet && !reGoWord.MatchString(src) && !orderDependentBlock(src) {
 		e := mk()
 		o := r.guarded(false, func(*stepctx.Ctx) (interface{}, error) { return vm.Execute(e, optsNoDebug, src) })
 		cr.account("exec", o, false)
